@@ -100,7 +100,14 @@ def gen_source(rng, specs):
             kw = "async def" if fk.startswith("async_") else "def"
             cls_outer_inner.append("        %s %s(%s):\n            return 1\n" % (kw, name, full))
             metas.append({"qual": "Outer.Inner." + name, "fkind": fk, "params": [("self", "recv", False)] + pm})
-    src = "\n\n".join(top) + "\n\n"
+    # one function whose existing annotations put type variables inside generics that have no renderer of their own
+    top.append("def tv(a: Iterable[_T], b: Type[_T], c: Callable[[_T], _T] = None, *, d: Sequence[_T_co] = ()) -> Mapping[str, _T]:\n"
+               "    return {}\n")
+    metas.append({"qual": "tv", "fkind": "function",
+                  "params": [("a", "posOrKw", False), ("b", "posOrKw", False), ("c", "posOrKw", True), ("d", "kwOnly", True)]})
+    src = ("from typing import Callable, Iterable, Mapping, Sequence, Type, TypeVar\n\n_T = TypeVar('_T')\n"
+           "_T_co = TypeVar('_T_co', covariant=True)\n\n\n")
+    src += "\n\n".join(top) + "\n\n"
     src += "class K:\n" + ("\n".join(cls_k) if cls_k else "    pass\n") + "\n\n"
     src += "class Outer:\n    class Inner:\n" + ("\n".join(cls_outer_inner) if cls_outer_inner else "        pass\n") + "\n"
     return src, metas
@@ -192,6 +199,8 @@ def run(pid, tier, seed):
             kinds.append("varKw")
         seqs.append(tuple(kinds))
     reqs, meta = [], []
+    breqs, bmeta = [], []
+    prev_name, prev_traces, prev_want = None, [], set()
     try:
         chunk = 24
         for ci in range(0, len(seqs), chunk):
@@ -227,11 +236,43 @@ def run(pid, tier, seed):
             chk.evaluations += 1
             case = {"module": name, "traced": [m["qual"] for m in traced]}
             try:
-                stub = build_module_stubs_from_traces(traces, 0)[name]
+                # one build for this module and the previous one: both have classes `K` and `Outer.Inner`
+                joint = build_module_stubs_from_traces(prev_traces + traces, 0)
+                stub = joint[name]
                 text = stub.render()
             except Exception as e:
                 chk.fail("error", dict(case, error=repr(e)))
                 continue
+            # where the function stubs went: the tree of class stubs against the model's `build` (Model/ModuleBuild.lean)
+            order = []
+            for t in traces:
+                if t.func not in order:
+                    order.append(t.func)
+            quals = [next(m["qual"] for m in traced if m["func"] is f) for f in order]
+            entries = tuple((tuple(Q(p) for p in q.split(".")[:-1]), Q(q.split(".")[-1])) for q in quals)
+
+            def shape_of(st):
+                return ([n for n in st.function_stubs], [(n, shape_of(c)) for n, c in st.class_stubs.items()])
+
+            def shape_of_model(g):
+                return ([str(kv[0]) for kv in g[0]], [(str(kc[0]), shape_of_model(kc[1])) for kc in g[1]])
+            breqs.append(("buildTree",) + entries)
+            bmeta.append((dict(case, entries=quals), shape_of(stub)))
+            if prev_name is not None:
+                # the previous module's stub out of the same build holds exactly its own traced functions
+                pfound = set()
+
+                def pwalk(st, path):
+                    for n in st.function_stubs:
+                        pfound.add(".".join(path + [n]))
+                    for n, c in st.class_stubs.items():
+                        pwalk(c, path + [n])
+                if prev_name in joint:
+                    pwalk(joint[prev_name], [])
+                if pfound != prev_want:
+                    chk.fail("each-once", dict(case, detail="two modules built together: the stub of %s" % prev_name,
+                                               in_stub=sorted(pfound), expected=sorted(prev_want)))
+            prev_name, prev_traces, prev_want = name, traces, {m["qual"] for m in traced}
             try:
                 tree = ast.parse(text)
             except SyntaxError as e:
@@ -302,6 +343,31 @@ def run(pid, tier, seed):
             it = [t if isinstance(t, str) else tuple(t) for t in toks]
             chk.rel("corr.C12.renderToks", mt == it and g[1] == "true" and g[2] == "true",
                     dict(case, impl=sexp.dumps(tuple(it)), model=sexp.dumps(g)))
+        # the same relation on random entry lists (class paths of depth 0-3 over a small alphabet, repeated qualified names,
+        # a function and a class of one name), straight through `build_module_stubs`
+        from monkeytype.stubs import FunctionDefinition, FunctionKind, build_module_stubs
+        for _ in range(300 if quick else 6000):
+            n = chk.rng.randrange(0, 9)
+            quals = []
+            for _ in range(n):
+                depth = chk.rng.choice([0, 0, 1, 1, 2, 3])
+                quals.append(".".join([chk.rng.choice(["A", "B", "f", "Inner"]) for _ in range(depth)] + [chk.rng.choice(["f", "g", "A", "m"])]))
+            defs = [FunctionDefinition("m", q, FunctionKind.MODULE, inspect.Signature()) for q in quals]
+            chk.evaluations += 1
+            try:
+                ms = build_module_stubs(defs).get("m")
+            except Exception as e:
+                chk.fail("error", {"entries": quals, "error": repr(e)})
+                continue
+
+            def shape_of(st):
+                return ([n for n in st.function_stubs], [(n, shape_of(c)) for n, c in st.class_stubs.items()])
+            breqs.append(("buildTree",) + tuple((tuple(Q(p) for p in q.split(".")[:-1]), Q(q.split(".")[-1])) for q in quals))
+            bmeta.append(({"entries": quals}, shape_of(ms) if ms is not None else ([], [])))
+        for g, (case, impl) in zip(drv.ask_many(breqs), bmeta):
+            def shape_of_model(g):
+                return ([str(kv[0]) for kv in g[0]], [(str(kc[0]), shape_of_model(kc[1])) for kc in g[1]])
+            chk.rel("corr.C12.moduleTree", shape_of_model(g) == impl, dict(case, impl=repr(impl)[:800], model=repr(shape_of_model(g))[:800]))
     finally:
         pd.close()
         drv.close()
